@@ -236,7 +236,7 @@ def errorCodes : List (String × String) := [
 def lintNames : List String := [{", ".join(q(x) for x in lints)}]
 
 /-- `Lint::ALLOWABLE_LINT_IDENTIFIERS` -/
-def allowableLintIdentifiers : List String := [{", ".join(q(x) for x in extra + lints)}]
+def allowableLintIds : List String := [{", ".join(q(x) for x in extra + lints)}]
 
 /-- identifiers `Allow::parse_from` refuses although they are allowable -/
 def allowExcluded : List String := [{", ".join(q(x) for x in excluded)}]
